@@ -331,8 +331,8 @@ def k_eigh_trunc(ctx, spec):
         ts4 = {'sym': symn, 'fermionic': False, 's': [s0, s0, -s0, -s0], 'legs': [leg, leg2, leg, leg2], 'n': list(cfg.sym.zero()) if cfg.sym.NSYM else [],
                'blocks': None, 'dtype': 'real', 'isdiag': False}
         b4 = cat.build(ctx, ts4, 'b4', config=cfg)
-        if b4.size > 24:
-            form = 'plain'
+        if b4.size > 24 or sum(leg['D']) * sum(leg2['D']) > 4:
+            form = 'plain'          # (eigenvalue-ordering forks grow factorially with the block dimension: seed 9 exhausted the path budget)
         else:
             h4 = b4 + b4.transpose((2, 3, 0, 1)).conj()
             h = h4.fuse_legs(axes=((0, 1), (2, 3)), mode='meta')
